@@ -677,7 +677,7 @@ impl Property for C05 {
                 Plan {
                     name: "hist",
                     kind: PlanKind::Random {
-                        cases: 40_000,
+                        cases: 120_000,
                         max_len: 400,
                     },
                     knobs: Knobs {
@@ -692,7 +692,7 @@ impl Property for C05 {
                 Plan {
                     name: "hist",
                     kind: PlanKind::Random {
-                        cases: 300_000,
+                        cases: 600_000,
                         max_len: 400,
                     },
                     knobs: Knobs {
